@@ -174,6 +174,7 @@ def strategy(tier):
                  "x0": draw(st.sampled_from(["none", "none", "rand", "exact", "zero", "exact_some"]))}
             solves.append(s)
         c["solves"] = solves
+        c["reupdate"] = draw(st.sampled_from(["none", "none", "new", "inplace"]))
         return c
     return case()
 
@@ -524,6 +525,44 @@ def check_case(case):
                           f"column {j}: ||op(A)x-b||={R[j]:.3e} > bound {bound[j]:.3e} (||A||={normA:.3e}, ||x||={nx_[j]:.3e},"
                           f" ||b||={nb_[j]:.3e}) | {info}",
                           sig={"component": comp, "trans": tr, "ratio": float(R[j] / max(bound[j], 1e-300))}))
+    # ---- second stage: the matrix changes (here: 2.5 A, every class is preserved) and update() is called again, with
+    # a new matrix object or with the new values written into the object handed over before; the first right-hand side
+    # is solved once more
+    re = case.get("reupdate", "none")
+    if re != "none" and prepared and Ad.dtype.kind in "fc" and not V:
+        fac = 2.5
+        tr, _, b, rdt, _ = prepared[0]
+        Ad2 = Ad * fac
+        try:
+            writable = A.flags.writeable if storage == "dense" else A.data.flags.writeable
+            if re == "inplace" and writable:
+                if storage == "dense":
+                    A[...] = Ad2
+                else:
+                    A.data[...] = A.data * fac
+                labels.append("reupdate:inplace")
+            else:
+                A = to_storage(Ad2, storage)
+                labels.append("reupdate:new_object")
+            obj.update(A)
+            x = np.asarray(obj.solve(b, trans=tr))
+        except Exception as e:
+            V.append(viol(f"C05:raises:reupdate:{comp}:{type(e).__name__}{tiny}",
+                          f"{_desc(case, n)} trans={tr}: {traceback.format_exc()[-700:]}"))
+            return sorted(set(labels)), V
+        opA2 = Ad2 if tr == "N" else (Ad2.T if tr == "T" else Ad2.conj().T)
+        if x.shape == b.shape and np.all(np.isfinite(x)):
+            X, B = x.reshape(n, -1), b.reshape(n, -1)
+            R = np.linalg.norm(opA2 @ X - B, axis=0)
+            nx_, nb_ = np.linalg.norm(X, axis=0), np.linalg.norm(B, axis=0)
+            bound = CG_FACTOR * cg_tol * nb_ if solver == "cg" else TOL_DIRECT * (fac * normA * nx_ + nb_)
+            if np.any(R > bound):
+                j = int(np.argmax(R - bound))
+                V.append(viol(f"C05:residual_after_reupdate:{comp}",
+                              f"after update() with 2.5*A ({re}): column {j}: ||op(A)x-b||={R[j]:.3e} > bound {bound[j]:.3e} "
+                              f"| {_desc(case, n)} trans={tr}"))
+        else:
+            V.append(viol(f"C05:residual_after_reupdate:{comp}", f"shape {x.shape} / non-finite solution after re-update"))
     if nt:
         labels.append("nontrivial")
     return sorted(set(labels)), V
